@@ -76,6 +76,10 @@ REQUIRE = {
     "judged_with:Padding-given-width-as-fixed": 4,
     "judged_root:Padding:fixed": 8,
     "judged_with:decoration-child-replaced": 10,
+    # round 9: directed core -- every row of a Filler box
+    "c5_filler_configs_judged": 100,
+    "c5_filler_child_row_moves": 500,
+    "c5_filler_filler_row_moves": 2000,
     # round 7: the same widget OBJECT at several positions of one container
     "judged_with:shared-widget-object": 30,
     "c2_mouse_cells_on_shared_widget_objects": 300,
@@ -182,6 +186,11 @@ ASSUMES = [
     "size); events, moves and presses are judged against the occurrence under the cell; the focus chain follows focus_position. A violation "
     "that vanishes when each position gets an object of its own is tagged |shared-widget-object and names the container(s) holding the "
     "repeated object",
+    "round 9, directed core (never skipped, 160 configurations per run): Filler directly around one selectable cursor spy x valign "
+    "{top, middle, bottom, relative 30/70} x (top, bottom) padding x body {flow pack, box given, box relative, flow with checker acceptance} "
+    "x two sizes; move_cursor_to_coords at every row and three columns, each on a freshly built tree. Rows on which the spy is drawn: as "
+    "clause 3. Rows of the top/bottom filler have no correspondingly translated cell: the move must be refused, the spy must not be "
+    "asked (never for a row outside its own rows) and get_cursor_coords must not change (clause tag c5)",
     "a fixed spy raises ValueError when handed a non-() size, like urwid's own fixed-only widgets raise WidgetError",
     "size histories: the fit precondition is established at the probe size S only; the other sizes need not fit and exceptions raised while "
     "touching them are counted, not judged; if rendering at S after the history shows another picture than the canvas kept for S (scroll "
@@ -1806,6 +1815,95 @@ def report(ctx, recipe, size, viols, focus=True, hist=None):
         ctx.violation(sig, best["msg"] + f"  [root rendered at {tuple(s)}]", wit)
 
 
+# ----------------------------------------------------------------------------- directed core: Filler rows (never skipped)
+FILLER_VALIGNS = ["top", "middle", "bottom", ["relative", 30], ["relative", 70]]
+FILLER_PADS = [(0, 0), (1, 0), (0, 2), (2, 1)]
+FILLER_BODIES = [("pack", "flow", {"rows": 2}), (3, "box", {}), (["relative", 50], "box", {}), ("pack", "flow", {"rows": 1, "acc": "checker"})]
+FILLER_SIZES = [(7, 9), (4, 12)]
+
+
+def filler_configs():
+    for va in FILLER_VALIGNS:
+        for top, bottom in FILLER_PADS:
+            for height, mode, kw in FILLER_BODIES:
+                for size in FILLER_SIZES:
+                    body = _spy(mode, **kw)
+                    yield {"k": "Filler", "c": body, "valign": va, "height": height, "top": top, "bottom": bottom}, list(size)
+
+
+def filler_rows_case(ctx, recipe, size):
+    """Filler around one selectable cursor spy: move_cursor_to_coords at EVERY row of the box and several columns, judged against
+    the rendered geometry.  Rows on which the spy is drawn: the usual clause 3.  Rows of the top / bottom filler (no child drawn):
+    there is no correspondingly translated cell, so the move must be refused, the spy must not be asked at all (in particular never
+    for a row outside its own rows) and the reported cursor must not change."""
+    size = tuple(size)
+    log = []
+    with warnings.catch_warnings():
+        warnings.simplefilter("ignore")
+        root = T.build(recipe, log)
+    o = observe(root, size, log, True)
+    if not o.ok:
+        ctx.count("c5_filler_config_skipped_precondition")
+        return
+    lf = root.leaves()[0]
+    left, top, lcols, lrows = o.rects[lf.sid]
+    ctx.count("c5_filler_configs_judged")
+    ctx.case(("directed-filler-rows", json.dumps(strip(recipe), sort_keys=True), list(size)))
+    maxcol, maxrow = size
+    for row in range(maxrow):
+        for col in sorted({0, maxcol // 2, maxcol - 1}):
+            # every probe on a freshly built tree: the verdict for one cell must not depend on earlier moves
+            log = []
+            with warnings.catch_warnings():
+                warnings.simplefilter("ignore")
+                root = T.build(recipe, log)
+            o2 = observe(root, size, log, True)
+            if not o2.ok or o2.grid != o.grid:
+                continue
+            lf = root.leaves()[0]
+            before = root.w.get_cursor_coords(size)
+            del log[:]
+            op = {"op": "move", "col": col, "row": row, "directed": "filler"}
+            wit = {"directed": "filler", "recipe": strip(recipe), "size": list(size), "op": op}
+            try:
+                ret = root.w.move_cursor_to_coords(size, col, row)
+                after = root.w.get_cursor_coords(size)
+            except Exception as e:  # noqa: BLE001
+                ctx.violation(f"C09|c5|move_cursor-raise:{exc_kind(e)}|box|Filler", f"Filler.move_cursor_to_coords({size}, {col}, {row}) raised {type(e).__name__}: {e}", wit)
+                continue
+            asked = [(e[3], e[4]) for e in log if e[0] == "move" and e[1] == lf.sid]
+            on_child = top <= row < top + lrows
+            if on_child:
+                ctx.count("c5_filler_child_row_moves")
+                expect = S.accepts(lf.recipe.get("acc", "all"), col - left, row - top, lcols, lrows)
+                kind = None
+                if asked != [(col - left, row - top)]:
+                    kind = "child-row-wrong-cell-to-child"
+                elif bool(ret) != expect:
+                    kind = "child-row-result-differs-from-child-answer"
+                elif ret and (after is None or after[1] != row):
+                    kind = "child-row-cursor-not-on-requested-row"
+            else:
+                ctx.count("c5_filler_filler_row_moves")
+                kind = None
+                if any(not (0 <= r_ < lrows) for _c, r_ in asked):
+                    kind = "filler-row-forwarded-to-child-as-row-outside-it"
+                elif asked:
+                    kind = "filler-row-forwarded-to-child"
+                elif ret:
+                    kind = "filler-row-accepted"
+                elif after != before:
+                    kind = "filler-row-moved-the-cursor"
+            if kind:
+                where = "top-filler" if row < top else ("child" if on_child else "bottom-filler")
+                ctx.violation(
+                    f"C09|c5|{kind}|box|Filler",
+                    f"Filler(valign={recipe['valign']}, height={recipe['height']}, top={recipe['top']}, bottom={recipe['bottom']}) at {size}: child drawn on rows "
+                    f"{top}..{top + lrows - 1}; move_cursor_to_coords({col}, {row}) [{where}] -> {ret}; child asked {asked}; cursor {before} -> {after}",
+                    wit,
+                )
+
+
 # ----------------------------------------------------------------------------- run / replay
 def do_case(ctx, recipe, size, queue=None, focus=True, hist=None):
     got = []
@@ -1867,6 +1965,10 @@ def run(ctx):
     maxcases = ctx.pick(4000, 400000)
     try:
         # a few fixed hand-written shapes first (one per container), so that every mechanism is reached
+        # directed core, never skipped: every row of a Filler (top filler / child / bottom filler) x valign x padding x body kind
+        for i, (recipe, size) in enumerate(filler_configs()):
+            if ctx.mine(i):
+                filler_rows_case(ctx, recipe, size)
         for i, (recipe, size) in enumerate(SEEDS):
             if ctx.mine(i):
                 do_case(ctx, recipe, size)
@@ -2060,4 +2162,7 @@ SEEDS = [
 
 def replay(ctx, wit):
     urwid.set_encoding("utf-8")
+    if wit.get("directed") == "filler":
+        filler_rows_case(ctx, wit["recipe"], wit["size"])
+        return
     do_case(ctx, wit["recipe"], wit["size"], None, wit.get("focus", True), wit.get("hist"))
